@@ -23,12 +23,28 @@ pub struct PwCase {
     pub run: Run,
 }
 
+thread_local! {
+    /// how neighbouring pieces are related (set by the phase body): 0 unrelated; 1 every piece the previous one times the scalar
+    /// of the operation; 2 every piece the negated previous one (adjacent pieces that are each other's image under the operator)
+    static RELATED: std::cell::Cell<(usize, f64)> = const { std::cell::Cell::new((0, 1.0)) };
+}
 fn build<T: Nums>(ends: &[f64]) -> Piecewise<T> {
+    let (mode, s) = RELATED.with(|c| c.get());
+    let geometric = mode == 1 && s.is_finite() && s != 0.0 && s.abs() >= 0.1 && s.abs() <= 7.0;
     Piecewise {
         segments: ends
             .iter()
             .enumerate()
-            .map(|(i, &e)| Segment { end: e, poly: T::from_nums(&LANE_ID.iter().map(|v| v * (1.0 + 0.5 * (i % 13) as f64) - 0.125 * (i % 7) as f64).collect::<Vec<_>>()) })
+            .map(|(i, &e)| {
+                let nums: Vec<f64> = if geometric && ends.len() <= 12 {
+                    LANE_ID.iter().map(|v| v * s.powi(i as i32)).collect()
+                } else if mode == 2 {
+                    LANE_ID.iter().map(|v| if i % 2 == 0 { *v } else { -*v }).collect()
+                } else {
+                    LANE_ID.iter().map(|v| v * (1.0 + 0.5 * (i % 13) as f64) - 0.125 * (i % 7) as f64).collect()
+                };
+                Segment { end: e, poly: T::from_nums(&nums) }
+            })
             .collect(),
     }
 }
@@ -69,7 +85,7 @@ fn compare<T: Nums + Evaluate>(what: &str, res: &Piecewise<T>, src_ends: &[f64],
 
 fn pw_mul<T>(ty: String) -> PwCase
 where
-    T: Nums + Evaluate + Mul<f64, Output = T> + Copy + Send + Sync,
+    T: Nums + Evaluate + Mul<f64, Output = T> + Copy + Send + Sync + PartialEq + std::fmt::Debug,
 {
     PwCase {
         ty, op: "Piecewise * s , Segment * s", positive_only: false, scalar: true,
@@ -85,7 +101,7 @@ where
 }
 fn pw_mul_assign<T>(ty: String) -> PwCase
 where
-    T: Nums + Evaluate + MulAssign<f64> + Copy + Send + Sync,
+    T: Nums + Evaluate + MulAssign<f64> + Copy + Send + Sync + PartialEq + std::fmt::Debug,
 {
     PwCase {
         ty, op: "Piecewise *= s , Segment *= s , (&mut Segment) *= s", positive_only: false, scalar: true,
@@ -106,7 +122,7 @@ where
 }
 fn pw_neg<T>(ty: String) -> PwCase
 where
-    T: Nums + Evaluate + Neg<Output = T> + Copy + Send + Sync,
+    T: Nums + Evaluate + Neg<Output = T> + Copy + Send + Sync + PartialEq + std::fmt::Debug,
 {
     PwCase {
         ty, op: "-Piecewise", positive_only: false, scalar: false,
@@ -120,7 +136,7 @@ where
 }
 fn pw_translate<T>(ty: String) -> PwCase
 where
-    T: Nums + Evaluate + Translate + Copy + Send + Sync,
+    T: Nums + Evaluate + Translate + Copy + Send + Sync + PartialEq + std::fmt::Debug,
 {
     PwCase {
         ty, op: "Piecewise::translate , Segment::translate", positive_only: false, scalar: true,
@@ -214,6 +230,7 @@ pub fn check(thorough: bool, _seed: u64) -> Check {
             let ends: Vec<f64> = (0..len).map(|i| 0.5 + i as f64 * 0.25).collect();
             let s = if c.scalar { [-2.5, 1.0000000000000002][cx.choose(2)] } else { 0.0 };
             SLACK.with(|m| m.set(if k % 3 == 0 { 1 } else if k % 3 == 1 { 2 } else { 0 }));
+            RELATED.with(|m| m.set((if k % 5 == 4 { 2 } else { 0 }, s)));
             cx.nontrivial();
             cx.evals(1);
             if cx.sampling() {
@@ -234,6 +251,8 @@ pub fn check(thorough: bool, _seed: u64) -> Check {
             let s = if c.scalar { *cx.pick(&SCALARS) } else { 0.0 };
             let slack = cx.choose(SLACK_MODES);
             SLACK.with(|m| m.set(slack));
+            let rel = cx.choose(3);
+            RELATED.with(|m| m.set((rel, s)));
             if ends.len() >= 2 {
                 cx.nontrivial();
             }
@@ -246,7 +265,7 @@ pub fn check(thorough: bool, _seed: u64) -> Check {
         classes: vec![],
         bounds: json!({"cases": "every operator on Segment / Piecewise for every piece type it exists for (list under operator_cases)",
             "shapes": format!("end lists of length 1..{} over {{1..4}}, 1..3 over {{0.5,2,+inf}} and over {{-1,-0.0,+0.0,5e-324}}; 1..n for n=6,9 plain and with duplicate runs; breakpoints one ulp apart; tiny-domain lists (1e-18 scale, 1e-300 scale); plus {} end lists that are not non-decreasing or hold NaN / infinite ends (every sequence of length 2..4 over {{1,2,3}} with a descent, descending and shuffled lists of 9 and 12, NaN ends with two payloads) - structure level only", if thorough {5} else {4}, unordered),
-            "scalars": "{0,-0.0,1,-1,2,0.1,1e-300,1e300}", "allocation history of the operand": "tight; spare capacity > length and > 4096 bytes; truncated from a vector 700 longer; grown by push; one spare slot", "value level": "every x of A(ends) through the real Piecewise::evaluate, compared on bits with the operated piece's own evaluate"}),
+            "scalars": "{0,-0.0,1,-1,2,0.1,1e-300,1e300}", "relation between neighbouring pieces": "unrelated; each piece the previous one times the scalar of the operation (exact powers for scalars 2, 0.1.. up to 12 pieces); each piece the negated previous one", "allocation history of the operand": "tight; spare capacity > length and > 4096 bytes; truncated from a vector 700 longer; grown by push; one spare slot", "value level": "every x of A(ends) through the real Piecewise::evaluate, compared on bits with the operated piece's own evaluate"}),
     };
     let mut extra = serde_json::Map::new();
     extra.insert("operator_cases".into(), json!(names));
